@@ -16,14 +16,16 @@ RULE = ("correspondence: extracted Coq model vs options_to_items on (a) ALL stri
         "(clone) / other exception class. search: options_to_items vs PyYAML's event stream on in-subset texts, and exception "
         "class + position-in-text + line/column = independent recomputation + offsets shift + termination on every generated string; "
         "non-trivial = text with a ':' that is not rejected at its first character, or any printed AST")
-TRUSTED = ["the thirteen scanner functions and the generator _tokenize of options.py are translated statement by statement by gen/c07_src.py "
-           "(fail-closed walker: while -> fuel loop, stream.peek/prefix/forward, `ch in CONST`, raise TokenizeError(msg, "
-           "stream.get_position(), ...) -> Raise (TokenizeError index), chunks.append/extend, \"\".join, tuple returns; marks and "
-           "State.has_comments erased, KeyToken/ValueToken -> the scalar text, yield -> writer monad with TKey / TValue(index at "
-           "the call) / TColon after checking the scanners' return statements) and proved equal to the hand model "
-           "(coq/Opt/OptSrcProofs.v, OptSrcCompose.v); hand-transcribed and tied by correspondence only: StreamBuffer "
-           "(peek/prefix/forward), _to_tokens, options_to_items (coq/Opt/OptModel.v, tables regenerated by "
-           "gen/c07_consts.py)",
+TRUSTED = ["gen/c07_src.py (fail-closed walker) translates ALL of the code of options.py that takes part in the result, statement "
+           "by statement, on every run: class StreamBuffer, TokenizeError.clone, options_to_items, _to_tokens (incl. its handler), the "
+           "generator _tokenize and the thirteen scanner functions. What the translation itself fixes (trusted mapping): the "
+           "StreamBuffer object is represented as (index, line, column, buffer[index:]) (sb_* accessors of coq/Opt/OptSrcLib.v); "
+           "`while` -> fuel loop (fuel_of stream at loop entry), `while length: ...; length -= 1` and `for` -> structural recursion; "
+           "`ch in CONST` -> mem_N with the literal inlined; raise TokenizeError(msg, stream.get_position() | token.start, ...) -> "
+           "Raise (TokenizeError index) (message, context and context mark dropped); tokens = kind + value + start index "
+           "(KeyToken/ValueToken checked against the scanners' return statements); generators -> writer monads; marks, "
+           "State.has_comments and the line/column of errors are erased from the result (they are covered by "
+           "C07_mark_positions(_src), C07_clone_positions(_src), C07_has_comments_erasure)",
            "coq/Opt/YamlSpec.v (print/meaning/wf of the subset) reads YAML 1.1 correctly: validated against PyYAML on every run",
            "PyYAML 6.0.3 scanner/parser as the conforming YAML loader",
            "CPython str/int/chr semantics as modelled (int(hex,16), chr range, slicing, IndexError)"]
@@ -1067,37 +1069,38 @@ def replay(ctx, data):
     return 0 if ok and not ctx.failures else 1
 
 
-LEVEL_TEXT = ("Proof (Coq, 24 theorems, all closed under the global context): for EVERY string (no premise) the model of "
+LEVEL_TEXT = ("Proof (Coq, 30 theorems, all closed under the global context): for EVERY string (no premise) the model of "
               "options_to_items terminates within its fuel, never indexes outside the buffer and returns pairs or raises TokenizeError "
               "with an index inside the text - never IndexError/ValueError/OverflowError (C07_terminates, C07_in_bounds, "
               "C07_only_tokenize_error; for the code as repaired by the fix: commit, C07_unguarded_chr_refuted keeps the old behaviour "
-              "visible); whatever follows an embedded NUL is never read: options_to_items (a ++ NUL :: b) = options_to_items a for all "
-              "a, b (C07_nul_truncates); StreamBuffer keeps (index, line, column) = the line/column of the index under the recognised "
-              "line breaks, and TokenizeError.clone shifts line and column by the offsets only (C07_mark_positions, C07_clone_positions); "
-              "State.has_comments never influences pairs or errors (C07_has_comments_erasure); and for EVERY well-formed block of the "
-              "supported YAML subset (AST with print/meaning/wf in coq/Opt/YamlSpec.v: plain, single-quoted, double-quoted incl. all "
-              "escapes, \\x \\u \\U and escaped line breaks, multi-line folding, literal and folded block scalars with every header form, "
-              "comment lines with indentation, blank lines with spaces, optional final line break) tokenize(print b) = Ok(meaning b) "
-              "(C07_yaml_agree, composed from per-family theorems; C07_final_newline_optional), also with an indented comment line "
-              "directly after a multi-line plain value or a block scalar, and with every LF printed as CR LF or as CR "
-              "(C07_yaml_agree_crlf, C07_yaml_agree_cr; in general a successful result does not depend on which of LF / CR LF / CR "
-              "the text uses: C07_line_breaks_transparent). The generator _tokenize and the thirteen scanner functions of options.py (_scan_line_break, "
-              "_scan_to_next_token, _scan_plain_spaces, _scan_plain_scalar, _scan_flow_scalar + spaces/breaks/non_spaces, "
-              "_scan_block_scalar + indicators/ignored_line/indentation/breaks) are regenerated as Gallina CODE from the source on "
-              "every run (gen/c07_src.py -> coq/Gen/OptSrc.v) and each is proved equal to its hand-written counterpart, so the "
-              "theorems hold for the tokenizer assembled from the translated functions (C07_src_refines, C07_terminates_src, "
-              "C07_only_tokenize_error_src, C07_yaml_agree_src, C07_nul_truncates_src): an edit of one of these functions breaks "
-              "the translation or a refinement proof. The model's character classes and escape tables are regenerated from the "
-              "source as well, and the whole model (incl. StreamBuffer and _to_tokens / options_to_items, which are hand "
-              "transcribed) is tied to the code by differential correspondence (pairs + has_comments / TokenizeError with index, line, column, "
-              "also with offsets / exception class): all strings up to length 5/6 over 14 YAML-significant symbols, printed ASTs, "
-              "decorated prints, specials and mutations; the spec's meaning is validated against PyYAML's event stream on every AST.")
-LEVEL_NOTE = ("Trusted: Coq kernel; the statement-level mapping of gen/c07_src.py (Python idioms -> Gallina, marks and the State flag "
-              "erased); the hand transcription of StreamBuffer and _to_tokens / options_to_items into coq/Opt/OptModel.v and of the flag "
-              "sites into coq/Opt/OptComments.v (checked by correspondence); the reading of YAML 1.1 in coq/Opt/YamlSpec.v (checked "
-              "against PyYAML 6.0.3 as the conforming loader, every scalar a string). Not covered by the agreement theorem, only by the "
-              "search against PyYAML: the line-break kinds NEL, LS, PS (LS/PS are kept as characters by YAML 1.1 and by the "
-              "tokenizer, so the meaning function would differ; NEL folds like CR but does not occur in real files), mixed "
-              "line-break kinds in one text, BOM. "
-              "Tabs as separation white space are rejected by PyYAML and by the tokenizer alike (nothing to widen). Error messages and "
-              "context marks are not modelled.")
+              "visible); whatever follows an embedded NUL is never read (C07_nul_truncates); StreamBuffer keeps (index, line, column) = "
+              "the line/column of the index under the recognised line breaks, and TokenizeError.clone shifts line and column by the "
+              "offsets only (C07_mark_positions, C07_clone_positions); State.has_comments never influences pairs or errors "
+              "(C07_has_comments_erasure); and for EVERY well-formed block of the supported YAML subset (AST with print/meaning/wf in "
+              "coq/Opt/YamlSpec.v: plain, single-quoted, double-quoted incl. all escapes, \\x \\u \\U and escaped line breaks, multi-line "
+              "folding, literal and folded block scalars with every header form, comment lines with indentation - also directly after a "
+              "multi-line plain value or a block scalar -, blank lines with spaces, optional final line break) tokenize(print b) = "
+              "Ok(meaning b) (C07_yaml_agree, composed from per-family theorems; C07_final_newline_optional), also when every LF is "
+              "printed as CR LF, as CR or as NEL (C07_yaml_agree_crlf/_cr/_nel; in general a successful result does not depend on "
+              "which ONE of LF / CR LF / CR / NEL a text without CR uses: C07_line_breaks_transparent; mixing kinds in one text is "
+              "not transparent, C07_mixed_breaks_refuted: CR + LF is one break). "
+              "The code itself is the subject: options_to_items_full is the Gallina term that gen/c07_src.py translates from "
+              "options.py on every run - options_to_items, _to_tokens, _tokenize, the thirteen _scan_* functions and the class "
+              "StreamBuffer they call - and every translated function is proved equal to its hand-written counterpart, so "
+              "options_to_items_full = options_to_items for every text (C07_src_refines) and the theorems hold for the translated "
+              "code (C07_terminates_src, C07_in_bounds_src, C07_only_tokenize_error_src, C07_yaml_agree_src, C07_nul_truncates_src, "
+              "C07_streambuffer_src, C07_mark_positions_src, C07_clone_positions_src): an edit of any of these functions breaks the "
+              "translation or a refinement proof. In addition the hand model is tied to the running code by differential "
+              "correspondence (pairs + has_comments / TokenizeError with index, line, column, also with offsets / exception class): "
+              "all strings up to length 5/6 over 14 YAML-significant symbols, printed ASTs, decorated prints, specials and mutations; "
+              "the spec's meaning is validated against PyYAML's event stream on every AST.")
+LEVEL_NOTE = ("Trusted: Coq kernel; the statement-level mapping of gen/c07_src.py (listed in TRUSTED: object representation of "
+              "StreamBuffer, fuel for while loops, erased marks / messages / State flag, tokens reduced to kind + value + start index); "
+              "the flag sites of coq/Opt/OptComments.v and the messages / context marks, which are not translated (flag and marks are "
+              "checked by correspondence); the reading of YAML 1.1 in coq/Opt/YamlSpec.v (checked against PyYAML 6.0.3 as the conforming "
+              "loader, every scalar a string). Not covered by the agreement theorems, only by the search against PyYAML: the line-break "
+              "characters LS and PS (YAML 1.1 and the tokenizer keep them as characters and do not fold them, so the meaning function "
+              "differs - a different spec, not a different print), different line-break kinds mixed in one text (not transparent in "
+              "general, C07_mixed_breaks_refuted), texts that contain CR and are not the CR LF / CR print of an LF text, BOM, characters "
+              "above U+D7FF and plain scalars starting with an indicator. Tabs as separation white space are rejected by PyYAML and by "
+              "the tokenizer alike (nothing to widen). Error messages and context marks are not modelled.")
